@@ -106,6 +106,14 @@ def build(e, env, pre=None):
         return B(e[1]) * B(e[2])
     if op == 'matmul':
         return B(e[1]) @ B(e[2])
+    if op == 'lsmatmul':
+        return S[e[1]] @ B(e[2])
+    if op == 'rsmatmul':
+        return B(e[1]) @ S[e[2]]
+    if op == 'lvmatmul':
+        return env.vec(e[1]) @ B(e[2])
+    if op == 'rvmatmul':
+        return B(e[1]) @ env.vec(e[2])
     if op == 'pwprod':
         return odl.OperatorPointwiseProduct(B(e[1]), B(e[2]))
     raise KeyError(op)
@@ -189,7 +197,13 @@ def check(e, env, pre=None):
     if op.domain != env.sp[dom]:
         viol.append(('domain_differs', head + 'expected domain %s, got %r' % (dom, op.domain)))
     if op.range != env.sp[ran]:
-        viol.append(('range_differs', head + 'expected range %s, got %r' % (ran, op.range)))
+        # `Functional`: "an operator f that maps from some domain X to the field of scalars F
+        # associated with the domain", whereas a composition f * A has the range of f: between
+        # a real and a complex space the two documented rules disagree -> either is accepted
+        if not (isinstance(op, _FN) and ran in A.FIELDS
+                and op.range == env.sp[A.FIELD_OF[dom]]):
+            viol.append(('range_differs',
+                         head + 'expected range %s, got %r' % (ran, op.range)))
     if viol:
         return viol, evals, op, None
     flag = bool(op.is_linear)
@@ -225,7 +239,7 @@ def check(e, env, pre=None):
             y = None
         if y is not None:
             if y not in op.range:
-                add('result_not_in_range', head + ptxt + 'got %r' % (y,))
+                add('result_not_in_range', head + ptxt + 'got %r, range %r' % (y, op.range))
             else:
                 got = _flat(y, ran)
                 if not _close(got, refa, tr):
@@ -304,10 +318,6 @@ def configs(tier):
     return [{'child': c, 'pool': p, 'mode': m} for c, p, m in _children(tier)]
 
 
-def _site(e, t):
-    return '%s@%s->%s' % (A.form(e), t[0], t[1])
-
-
 def run(cfg):
     child = cfg['child']
     pool = A.POOLS[cfg['pool']]
@@ -339,25 +349,38 @@ def run(cfg):
     skipped = 0
     sigs = set()
     first = {}
-    bad_partner = {}
+    partner_ok = {}
     for e in exprs:
         t = A.typeof(e)
         assert t is not None, 'ill-typed expression enumerated: %r' % (e,)
-        if partners:
-            # a partner that violates on its own is judged in its own state
-            p = e[2]
-            if id(p) not in bad_partner:
-                pv, pe, pop, _ = check(p, env)
-                bad_partner[id(p)] = bool(pv)
-                if not pv:
-                    pre[id(p)] = pop
-            if bad_partner[id(p)]:
-                skipped += 1
-                continue
+        if A.unspecified(e):
+            skipped += 1
+            continue
+        # the other operator operand (a leaf, or a size-1 expression in 'pairs' mode) is judged
+        # in its own state; if it does not stand on its own the combination is not judged
+        other = [c for c in A.children(e) if c is not child]
+        ok = True
+        for p in other:
+            if id(p) not in partner_ok:
+                if p[0] == 'L':
+                    try:
+                        pre[id(p)] = env.leaf(p[1])
+                        partner_ok[id(p)] = True
+                    except Exception:
+                        partner_ok[id(p)] = False
+                else:
+                    pv, pe, pop, _ = check(p, env)
+                    partner_ok[id(p)] = not pv
+                    if not pv:
+                        pre[id(p)] = pop
+            ok = ok and partner_ok[id(p)]
+        if not ok:
+            skipped += 1
+            continue
         viol, ne, op, flag = check(e, env, pre)
         evals += ne
         nexpr += 1
-        site = _site(e, t)
+        site = site_of(e, env, pre)
         sigs.add('%s|%s|%s|%s' % (site, type(op).__name__ if op is not None else '-',
                                   flag, ','.join(sorted(s for s, _ in viol))))
         for sym, det in viol:
@@ -411,9 +434,11 @@ def meta(tier):
                 'applications of one more combinator with every scalar, vector and leaf of the '
                 'pool (thorough: also every pair of size-1 expressions of the reduced pool). '
                 'Each resulting expression is executed at 4 points out-of-place and in-place '
-                'and compared with the reference interpreter (exact equality; 1e-9 relative '
-                'to the largest intermediate magnitude when NormOperator occurs). '
-                'distinct = (structural form @ type, resulting class, is_linear, symptoms).',
+                'and compared with the reference interpreter (exact equality when every '
+                'intermediate value of the reference is a multiple of 2^-12 below 2^12, so that no '
+                'rounding can occur in any association order; otherwise 1e-12 relative to the '
+                'largest intermediate magnitude). '
+                'distinct = (overload[operand kinds]/regime, resulting class, is_linear, symptoms).',
         'bounds': b,
         'assumptions': [
             'well-typedness follows the Parameters sections of Operator.__mul__/__rmul__/'
